@@ -422,19 +422,25 @@ func (v *ADTSImpl) Decode(data []byte) (raw, left []byte, err error) {
 	// number_of_raw_data_blocks_in_frame 2 uimsbf
 	//number_of_raw_data_blocks_in_frame = abfv & 0x03
 	// adts_error_check(), 1.A.2.2.3 Error detection
+	nbHeader := 7
 	if protectionAbsent == 0 {
 		if len(p) <= 2 {
 			return nil, nil, errors.Errorf("requires 2+ but only %v bytes", len(p))
 		}
 		// crc_check 16 Rpchof
 		p = p[2:]
+		nbHeader += 2
 	}
 
 	v.asc.Object = profile.ToObjectType()
 	v.asc.Channels = Channels(channelConfiguration)
 	v.asc.SampleRate = SampleRateIndex(samplingFrequencyIndex)
 
-	nbRaw := int(frameLength - 7)
+	// The frame length includes the header and the optional crc.
+	nbRaw := int(frameLength) - nbHeader
+	if nbRaw < 0 {
+		return nil, nil, errors.Errorf("invalid frame length %v", frameLength)
+	}
 	if len(p) < nbRaw {
 		return nil, nil, errors.Errorf("requires %v but only %v bytes", nbRaw, len(p))
 	}
